@@ -17,7 +17,10 @@ def jobs(tier, seed, prop):
     FAMS = {"laguerre": "FAM_LAGUERRE(r)", "hermite": "FAM_HERMITE(r)", "fourier": "((r) == rule_fourier)", "jacobi": "FAM_JACOBI(r)",
             "canonical": "(!FAM_LAGUERRE(r) && !FAM_HERMITE(r) && !FAM_JACOBI(r) && (r) != rule_fourier)"}
     for lem, fam in [(l, f) for l in ("lemma_roundtrip", "lemma_qscale") for f in FAMS if not (l == "lemma_roundtrip" and f == "jacobi")]:
-        pre_f = pre.replace("#define LB ", "#define FAMILY(r) %s\n#define LB " % FAMS[fam], 1)
+        fexpr = FAMS[fam]
+        if lem == "lemma_roundtrip" and fam == "canonical":
+            fexpr = "(!FAM_LAGUERRE(r) && !FAM_HERMITE(r) && (r) != rule_fourier)"   # the Jacobi-type rules share the [-1,1] map
+        pre_f = pre.replace("#define LB ", "#define FAMILY(r) %s\n#define LB " % fexpr, 1)
         out.append(Job("transforms.%s.%s" % (lem, fam), pre_f + cf.text(("lemma",), [lem]) + cf.text(("harness",), ["h_" + lem]), "h_" + lem, enforce=lem, split=r'lemma_\w+\.assertion\.\d+$',
                        pre_unwindset={r'mapCanonicalToTransformed|mapTransformedToCanonical|getQuadratureScale|diffCanonicalTransform|tsg_\w+': 4},
                        timeout=900 if tier == "quick" else 3000, backends=[["--sat-solver", "cadical"], []], functions=fl, info=info,
